@@ -19,6 +19,37 @@ var StressHits int64
 
 var stressSink [][]byte
 
+// churnRing keeps the small objects allocated by the "churn" action alive for a while, so that they occupy
+// the heap slots a preceding collection has just freed.
+var churnRing [8][]interface{}
+var churnPos int
+
+const churnJunk = "\xde\xad\xde\xad\xde\xad\xde\xad\xde\xad\xde\xad"
+
+func churn() {
+	var keep []interface{}
+	js := churnJunk
+	for i := 0; i < 3000; i++ {
+		// pointer-carrying objects of the small size classes (16, 24, 32, 48, 64 bytes) and pointer-free ones
+		k := &SKey{K: js[:8+i%4]}
+		v := &SVal{A: -0x21522153, S: js}
+		p := &SPtr{N: -0x21522153}
+		st := new(string)
+		*st = js
+		a2 := &[2]*string{st, st}
+		a4 := &[4]*string{st, st, st, st}
+		a6 := &[6]*string{st, st, st, st, st, st}
+		a8 := &[8]*string{st, st, st, st, st, st, st, st}
+		b := make([]byte, 8+8*(i%8))
+		for j := range b {
+			b[j] = 0xde
+		}
+		keep = append(keep, k, v, p, st, a2, a4, a6, a8, b)
+	}
+	churnRing[churnPos%len(churnRing)] = keep
+	churnPos++
+}
+
 //go:noinline
 func recurse(n int, buf *[64]byte) int {
 	var local [64]byte
@@ -39,6 +70,8 @@ func Stress() {
 		switch {
 		case a == "gc":
 			runtime.GC()
+		case a == "churn":
+			churn()
 		case a == "freeos":
 			debug.FreeOSMemory()
 		case strings.HasPrefix(a, "alloc:"):
@@ -75,6 +108,14 @@ func Stress() {
 	}
 }
 
+// StressTail executes the plan once more at the end of a decoding callback, after the method's last use of
+// its receiver: from here on only sonic's own frame keeps the object being decoded alive.
+//
+//go:noinline
+func StressTail() {
+	Stress()
+}
+
 // SVal: value-receiver MarshalJSON, pointer-receiver UnmarshalJSON, both running the stress plan.
 type SVal struct {
 	A int
@@ -101,6 +142,7 @@ func (s *SVal) UnmarshalJSON(b []byte) error {
 		return errors.New("SVal: " + err.Error())
 	}
 	s.A, s.S = w.Sv, w.S
+	StressTail()
 	return nil
 }
 
@@ -118,6 +160,7 @@ func (k *SKey) UnmarshalText(b []byte) error {
 		return errors.New("SKey: missing prefix")
 	}
 	k.K = string(b[3:])
+	StressTail()
 	return nil
 }
 
@@ -139,6 +182,7 @@ func (s *SPtr) UnmarshalJSON(b []byte) error {
 		return err
 	}
 	s.N = n / 2
+	StressTail()
 	return nil
 }
 
